@@ -86,7 +86,7 @@ prop('C05', title='Client enforces request deadlines, never early',
      level_text='Proof that insert_request arms exactly one timer for this id with delay min(deadline - now, MAX_TIMER_DELAY); that an expiry removes exactly the entry of the id its timer carried and delivers DeadlineExceeded to that entry\'s channel only; that a processed reply removes the timer (no later expiry); that pump_write polls expirations on every pass. Kani proves on the real code that time_until is the saturating difference for all instants.',
      level_note='Timer accuracy (never early, eventually fires) is tokio-util\'s (A-delayqueue).')
 prop('C07', SERVER_TOO, title='Deadlines propagate across hops without stretching',
-     verus=['client'], native=['server_context_bounded', 'client_wire_bounded'], kani=['k2_deadline_written_as_remaining_time', 'k2_deadline_decode_total_and_shifted', 'k2_deadline_shift_law', 'k2_default_deadline_ten_seconds', 'k3_time_until_is_saturating_difference'],
+     verus=['client'], native=['server_context_bounded', 'client_wire_bounded', 'codec_grid_bounded'], kani=['k2_deadline_written_as_remaining_time', 'k2_deadline_decode_total_and_shifted', 'k2_deadline_shift_law', 'k2_default_deadline_ten_seconds', 'k3_time_until_is_saturating_difference'],
      technique=TECH_K + '; ' + TECH_V + '; plus bounded replay searches (what the handler observes; what the client writes) as a source of concrete failing inputs (never counted as proved)',
      assumptions=['A-codec', 'A-clock', 'A-verifiers', 'A-extraction'],
      level_text='CBMC proof over all instants now1 <= now2 and all deadlines of the real serialize/deserialize: written duration = saturating D - now1; decoded D\' = now2 + duration; D\' >= D, D\' - D = transit, passed deadline arrives as now; default = now + 10 s. Verus proves the request written to the wire carries the caller\'s context (deadline forwarded unchanged).',
@@ -105,14 +105,14 @@ prop('C10', SERVER_TOO, NATIVE_SERVER, title='Shutdown is orderly: queued work i
      level_note='That dropping the dispatch future fails the remaining callers is Rust drop glue + A-oneshot.',
      not_covered='server side (unit server)')
 prop('C11', SERVER_TOO, NATIVE_SERVER, title='Tracked request state is bounded and fully reclaimed',
-     verus=['client', 'cancellations', 'util_compact'], native=['client_wire_bounded', 'deadlines_bounded'],
+     verus=['client', 'cancellations', 'util_compact'], native=['client_wire_bounded', 'deadlines_bounded', 'server_abandon_bounded'],
      technique='Verus: representation invariant (timers<->entries bijection) + whole-view postconditions on the real table functions, extracted from /repo each run',
      level_text='Deductive proof, for all table states and all ids, that every public operation of the real in-flight tables preserves the timers<->entries bijection and changes the abstract view exactly as specified; the history quantifier is discharged by the invariant (every call sequence is a sequence of contracted calls).',
      level_note='Proof is about the extracted text (rules logged per run) against trusted models of HashMap/DelayQueue/oneshot.',
      assumptions=['A-extraction', 'A-tracing', 'A-pin', 'A-core', 'A-hashmap', 'A-delayqueue', 'A-oneshot', 'A-verifiers'])
 
 prop('C15', title='Shipped transports deliver messages intact and in order',
-     verus=['transports'], native=['transports_bounded'],
+     verus=['transports'], native=['transports_bounded', 'codec_grid_bounded'],
      technique='Kani: loop-free full-domain harnesses on the real error-kind table and 128-bit id codec functions (complete proofs, not bounded); ' + TECH_V + ' (the forwarding layer of the in-memory and serde transports)',
      level_text='Proof by CBMC over the full input domain of tarpc\'s own wire tables (error kinds both directions incl. the primitive type written). Verus proof that every Stream/Sink function of the shipped transports (UnboundedChannel, bounded Channel, serde_transport::Transport) forwards: start_send hands the very item to the underlying queue/codec exactly once (whole-sequence postcondition on the accepted sequence) or reports an error and hands over nothing; poll_next yields exactly what the queue/codec yields (items unchanged, end-of-stream as end-of-stream, Pending as Pending, errors as errors) and never writes; readiness/flush/close answers are the underlying ones; the constructors cross-wire the two ends. The framing/codec layers and the queues are dependency code and enter as assumptions.',
      level_note='Only tarpc-owned encoding and forwarding functions are under contract; FIFO and end-of-stream behaviour of tokio/futures queues and of the length-delimited serde codec are assumed (A-mpsc, A-codec).',
